@@ -1,6 +1,6 @@
 #!/usr/bin/env python3
 """Runs every seeded change in /verif/seeded against the quick check of the property it breaks.
-usage: tools/mutant_matrix.py [--worktree DIR] [ids...]   (default: apply to /repo and undo, as the brief prescribes)"""
+usage: tools/mutant_matrix.py [--worktree DIR] [--seed N] [ids...]   (default: apply to /repo and undo, as the brief prescribes)"""
 import os, sys, json, subprocess, glob, re, time
 
 V = os.path.dirname(os.path.dirname(os.path.abspath(__file__)))
@@ -9,6 +9,11 @@ wt = None
 if args and args[0] == "--worktree":
     wt = args[1]
     args = args[2:]
+seed = None
+if args and args[0] == "--seed":
+    seed = args[1]
+    args = args[2:]
+out_name = "RESULTS.json" if seed is None else f"RESULTS_seed{seed}.json"
 repo = wt or "/repo"
 ids = args or sorted(os.path.basename(d) for d in glob.glob(os.path.join(V, "seeded", "C*_*")))
 res = {}
@@ -23,6 +28,8 @@ for mid in ids:
     env = dict(os.environ)
     if wt:
         env["VERIF_REPO"] = wt
+    if seed is not None:
+        env["VERIF_SEED"] = seed
     t = time.time()
     p = subprocess.run([os.path.join(V, "check"), prop], capture_output=True, text=True, env=env, cwd=V)
     subprocess.run(["git", "-C", repo, "checkout", "-q", "--", "."], check=True)
@@ -42,4 +49,11 @@ for mid in ids:
 # leave generated files in the state of the real repository
 subprocess.run([sys.executable, os.path.join(V, "tools", "extract_consts.py")], capture_output=True)
 subprocess.run([sys.executable, os.path.join(V, "tools", "xsd2lean.py")], capture_output=True)
-json.dump(res, open(os.path.join(V, "seeded", "RESULTS.json"), "w"), indent=1)
+if not args or seed is not None:
+    json.dump(res, open(os.path.join(V, "seeded", out_name), "w"), indent=1)
+else:
+    # a partial run updates the entries it ran
+    path = os.path.join(V, "seeded", out_name)
+    old = json.load(open(path)) if os.path.exists(path) else {}
+    old.update(res)
+    json.dump(dict(sorted(old.items())), open(path, "w"), indent=1)
